@@ -21,14 +21,16 @@ def run(ctx):
         "them is NOT discharged (tick-count side: Nsq.Props.C04Live); the drain-and-compare oracle measures it",
         "topic level (round 7, Nsq.Props.C01Topic, every infinite schedule NExec of API-level ops of the nsqd-level model from a state "
         "satisfying the invariant): eventually_fanned_out / acked_eventually_delivered — a message in a topic queue is fanned out to EVERY "
-        "channel the topic has at that moment and is then delivered on each of them — UNDER the named hypotheses FairTopicPump (strong "
+        "channel the topic has at that moment and is then delivered on each of them, or that channel ceases to own it (while it exists: one of "
+        "the four removal events, fanned_then_gone_is_removed) or the channel itself disappeared (#ephemeral, reaped) — UNDER the named hypotheses FairTopicPump (strong "
         "fairness of Topic.messagePump towards each queued message; the topic queue is a bag), PumpEnabledInfOften (topic unpaused with "
         ">= 1 channel infinitely often) and the four channel-level hypotheses per channel; not discharged for the Go scheduler",
         "an #ephemeral channel may drop on overflow and a sampling consumer may drop: the two deliberate drops of the statement",
         "Channel.Empty / channel deletion / shutdown windows belong to C08 / C05",
         "#ephemeral TOPICS (audit A5) are an extension model (Nsq.Model.TopicEph over ChanNsqd, theorems Nsq.Props.C01Eph): "
-        "ack_implies_enqueued is FALSE for them (ack_implies_enqueued_false_ephemeral); an acknowledged publish is in the topic queue "
-        "XOR recorded as dropped (eph_ack_enqueued_or_dropped), dropped only when the memory queue had no room "
+        "ack_implies_enqueued is FALSE for them (ack_implies_enqueued_false_ephemeral); an acknowledged PUB is, per step, either put in the topic queue "
+        "or recorded as dropped (eph_ack_enqueued_or_dropped; 'never both' under id-freshness hypotheses that are not a proved invariant; "
+        "MPUB: kept + dropped = published), dropped only when the memory queue had no room "
         "(only_deliberate_drops_topic), and counted either way (eph_counts_include_dropped) — the third deliberate drop of the statement; "
         "fanout_complete / the liveness theorems are NOT restated over the extension; an ephemeral topic deleting itself with its last "
         "channel is not modelled",
